@@ -46,6 +46,8 @@ THEOREMS = [
     # the climbing images chosen by relax
     'C20.climbIndices_length_le', 'C20.climbIndices_interior_max', 'C20.climbIndices_first', 'C20.climbIndices_complete',
     'C20.localMaxima_sorted',
+    # units of length
+    'C20.unitOf_scale_invariant', 'C20.unitTangent_scale_invariant', 'C20.arccoord_scale', 'C20.stepRow_homogeneous',
 ]
 PARTIAL = {
     'relaxation_converges_to_saddle': 'convergence of the iterated float/spline relaxation is not a '
@@ -272,9 +274,10 @@ def _gen_poly(rng, dim, tame=False):
                 [cm.dyadic(rng, -hi, hi, 2) for _ in range(dim)], cm.dyadic(rng, -2, 2, 1))
 
 
-def _analytic_gradient(fxn, coord, scale=1.0):
-    """a user-supplied gradientfxn: analytic gradient of the energy function it is handed, times a setting."""
-    return scale * fxn.grad(coord)
+def _analytic_gradient(fxn, coord, scale=1.0, half=1.0):
+    """a user-supplied gradientfxn with two keyword settings: analytic gradient of the energy function it is handed,
+    times scale * half (the path hands {'scale': 2 k, 'half': 0.5} for the setting k: every keyword must arrive)."""
+    return (scale * half) * fxn.grad(coord)
 
 
 def _degenerate(rows):
@@ -443,7 +446,9 @@ class Runner:
 
     @staticmethod
     def _kwdict(g, kw):
-        return {} if kw is None else {('shift' if g == 'cd' else 'scale'): kw}
+        if kw is None:
+            return {}
+        return {'shift': kw} if g == 'cd' else {'scale': 2.0 * kw, 'half': 0.5}
 
     @staticmethod
     def _coord_value(rows, how):
@@ -1542,11 +1547,12 @@ class _Selection:
                 else:
                     state['seen'].append([int(i) for i in np.atleast_1d(np.asarray(climbindex)).ravel()])
                 new = self.coord.copy()
-                new[0, 1] += 1.0
+                new[0, 1] += 1.0        # the number of steps this string has behind it
                 return Scripted(new, self.energyfxn, gradientfxn=self.gradientfxn, gradientkwargs={})
 
         def energy(p):
-            return tables[min(state['nr'], len(tables) - 1)][np.rint(np.asarray(p)[..., 0]).astype(int)]
+            p = np.asarray(p)
+            return tables[min(int(np.rint(p[0, 1])), len(tables) - 1)][np.rint(p[..., 0]).astype(int)]
         coord = np.array([[float(i), 0.0] for i in range(case['n'])])
         path = Scripted(coord, energy, gradientfxn=(lambda f, c: np.zeros_like(c)), gradientkwargs={})
         kw = {} if case['climbpoints'] is None else {'climbpoints': case['climbpoints']}
@@ -1709,22 +1715,29 @@ def correspond(ctx):
                           'model': [str(v) for v in model]})
 
 
-def _relax_flow(ctx, rng):
-    """control flow of ISMPath.relax against the Lean `phaseSteps` model: `step` is replaced by a scripted
-    displacement sequence, so the number of relaxation / climbing steps performed is observable."""
+def _phase_count(n, tol, ds):
+    """steps a phase of relax performs: at most n, stopping right after the first displacement measure below tol."""
+    k = 0
+    for d in ds[:n]:
+        k += 1
+        if d < tol:
+            break
+    return k
+
+
+def _relax_flow_run(rs, cs, tol, dr, dc):
+    """relax with a scripted step (image 1 moves by d * timestep): (relaxation steps, climbing steps) performed."""
     np = _np()
     from atomman.mep import ISMPath
+    sc = {'nr': 0, 'nc': 0}
 
     class Scripted(ISMPath):
-        script = None   # shared mutable: {'relax': [...], 'climb': [...], 'nr': 0, 'nc': 0}
-
         def step(self, timestep=None, climbindex=None):
-            sc = Scripted.script
             if climbindex is None:
-                d = sc['relax'][sc['nr']]
+                d = dr[sc['nr']] if sc['nr'] < len(dr) else 2.0
                 sc['nr'] += 1
             else:
-                d = sc['climb'][sc['nc']]
+                d = dc[sc['nc']] if sc['nc'] < len(dc) else 2.0
                 sc['nc'] += 1
             new = self.coord.copy()
             new[1, 0] += d * timestep
@@ -1732,26 +1745,41 @@ def _relax_flow(ctx, rng):
 
     def energy(p):
         return -(p[..., 0] - 0.3) ** 2 - p[..., 1] ** 2
+    coord = np.array([[-1.0, 0.0], [0.25, 0.5], [1.0, 0.0]])
+    path = Scripted(coord, energy, gradientfxn=(lambda f, c: np.zeros_like(c)), gradientkwargs={})
+    try:
+        path.relax(relaxsteps=rs, climbsteps=cs, timestep=0.5, tolerance=tol, verbose=False)
+    except Exception as e:  # noqa: an observation
+        return ('raise', type(e).__name__, str(e)[:200])
+    return (sc['nr'], sc['nc'])
+
+
+def _relax_flow(ctx, rng, lean=True):
+    """control flow of ISMPath.relax against the Lean `phaseSteps` model (lean=True) / the documented loop counted in
+    Python (lean=False): `step` is replaced by a scripted displacement sequence, so the number of relaxation / climbing
+    steps performed is observable. The measures include exact ties with the tolerance."""
     for it in range(ctx.n(150, 1500)):
         rs, cs = rng.randint(0, 6), rng.randint(0, 6)
         tol = rng.choice([0.5, 0.25, 1.0])
         mk = lambda n: [rng.choice([2.0, 1.0, 0.75, 0.125, 0.0625, 0.5, 0.25]) for _ in range(n)]
         dr, dc = mk(rs), mk(cs)
-        Scripted.script = {'relax': dr, 'climb': dc, 'nr': 0, 'nc': 0}
-        coord = np.array([[-1.0, 0.0], [0.25, 0.5], [1.0, 0.0]])
-        path = Scripted(coord, energy, gradientfxn=(lambda f, c: np.zeros_like(c)), gradientkwargs={})
-        path.relax(relaxsteps=rs, climbsteps=cs, timestep=0.5, tolerance=tol, verbose=False)
-        got = (Scripted.script['nr'], Scripted.script['nc'])
-        m1 = ctx.driver.ask(f'phase {rs} {cm.fr(tol)} ' + cm.frs(dr))
-        m2 = ctx.driver.ask(f'phase {cs} {cm.fr(tol)} ' + cm.frs(dc))
-        ctx.stats.case('relax-flow', (rs, cs, tol, tuple(dr), tuple(dc)), nontrivial=rs + cs > 0,
+        got = _relax_flow_run(rs, cs, tol, dr, dc)
+        if lean:
+            m1 = ctx.driver.ask(f'phase {rs} {cm.fr(tol)} ' + cm.frs(dr))
+            m2 = ctx.driver.ask(f'phase {cs} {cm.fr(tol)} ' + cm.frs(dc))
+        else:
+            m1, m2 = str(_phase_count(rs, tol, dr)), str(_phase_count(cs, tol, dc))
+        ctx.stats.case('relax-flow' if lean else 'oracle:relax-flow', (rs, cs, tol, tuple(dr), tuple(dc)), nontrivial=rs + cs > 0,
                        sample={'op': 'relax-flow', 'relaxsteps': rs, 'climbsteps': cs, 'tolerance': tol,
                                'd_relax': dr, 'd_climb': dc, 'steps_done': got})
-        if (str(got[0]), str(got[1])) != (m1, m2):
-            ctx.disagree('relax-flow', f'relax(relaxsteps={rs}, climbsteps={cs}, tol={tol}) with step displacements '
-                         f'{dr} / {dc} performed {got} steps, model ({m1}, {m2})',
-                         {'op': 'relax-flow', 'relaxsteps': rs, 'climbsteps': cs, 'tol': tol, 'dr': dr, 'dc': dc,
-                          'impl': got, 'model': [m1, m2]})
+        if (str(got[0]), str(got[1])) != (m1, m2) or len(got) != 2:
+            (ctx.disagree if lean else ctx.violate)(
+                'relax-flow' if lean else 'relax:flow',
+                f'relax(relaxsteps={rs}, climbsteps={cs}, timestep=0.5, tolerance={tol}) on a path whose steps move one image by '
+                f'{dr} (relaxation) / {dc} (climbing) times the time step performed {got} steps; stopping right after the first '
+                f'measure below the tolerance gives ({m1}, {m2})',
+                {'op': 'relax-flow', 'relaxsteps': rs, 'climbsteps': cs, 'tol': tol, 'dr': dr, 'dc': dc,
+                 'impl': list(got), 'model': [m1, m2]})
 
 
 # ----------------------------------------------------------------------------------------
@@ -1815,6 +1843,7 @@ def search(ctx, broken):
     _search_scales(ctx, rng, broken)
     _search_integ_arrays(ctx, rng, broken)
     _search_selection(ctx, rng, broken)
+    _relax_flow(ctx, rng, lean=False)
     # numerical gradient: second order in the step on smooth functions (sin/exp mix)
     for it in range(ctx.n(40, 400)):
         dim = 1 + it % 3
@@ -2261,6 +2290,12 @@ def replay(ctx, payload):
         print('replay central_difference on leading shape', r['lead'], '->', why or 'agrees with the exact gradient')
         if why is not None:
             ctx.violate(f'central_difference:array{len(r["lead"]) + 1}d', 'replayed case still fails: ' + why, r)
+    elif op == 'relax-flow':
+        got = _relax_flow_run(r['relaxsteps'], r['climbsteps'], r['tol'], r['dr'], r['dc'])
+        want = (_phase_count(r['relaxsteps'], r['tol'], r['dr']), _phase_count(r['climbsteps'], r['tol'], r['dc']))
+        print('replay relax control flow: performed', got, 'expected', want)
+        if tuple(got) != want:
+            ctx.violate('relax:flow', f'replayed case still fails: {got} steps instead of {want}', r)
     elif op == 'relax' and 'coord' in r:
         kw = {k: r[k] for k in ('relaxsteps', 'climbsteps') if k in r}
         _relax_case(ctx, r['k'], r['c'], r['a'], np.array(r['coord']), r['options'], kw,
